@@ -13,7 +13,7 @@ UNIVARIATE_FAMILIES = ["Normal", "Laplace", "SmoothedLaplace", "Cauchy", "Gamma"
 
 
 @st.composite
-def family_spec(draw, families=None, max_dim=5, modes=("vector", "scalar", "scalar2d", "list", "callable")):
+def family_spec(draw, families=None, max_dim=5, modes=("vector", "scalar", "scalar2d", "list", "callable"), magnitudes=False):
     fam = draw(st.sampled_from(families or UNIVARIATE_FAMILIES))
     mode = draw(st.sampled_from(list(modes)))
     if fam == "ModifiedHalfNormal":
@@ -26,23 +26,30 @@ def family_spec(draw, families=None, max_dim=5, modes=("vector", "scalar", "scal
     k = 1 if mode in ("scalar", "scalar2d") else n
     pos = lambda: draw(st.lists(gen.logpos(-1.0, 1.0), min_size=k, max_size=k))
     real = lambda: draw(gen.vec(k, -3, 3))
+    # uncommon but legitimate magnitudes: shape-type parameters of several hundred (Gamma functions beyond the double range),
+    # scale-type parameters of 1e-6 / 1e6
+    big = draw(st.sampled_from([None, None, None, "shape", "small_scale", "large_scale"])) if magnitudes else None
+    shp = (lambda: [100.0 * v for v in pos()]) if big == "shape" else pos
+    scl = (lambda: [(1e-6 if big == "small_scale" else 1e6) * v for v in pos()]) if big in ("small_scale", "large_scale") else pos
     s = {"fam": fam, "mode": mode, "dim": n}
+    if big:
+        s["magnitude"] = big
     if mode == "scalar2d":
         s["shape"] = shape
     if fam == "Normal":
-        s.update(mean=real(), std=pos())
+        s.update(mean=real(), std=scl())
     elif fam in ("Laplace", "SmoothedLaplace"):
         s.update(location=real(), scale=pos() if fam == "SmoothedLaplace" else pos()[:1])
         if fam == "SmoothedLaplace":
             s["beta"] = draw(st.sampled_from([1e-3, 0.1, 1.0]))
     elif fam == "Cauchy":
-        s.update(location=real(), scale=pos())
+        s.update(location=real(), scale=scl())
     elif fam == "Gamma":
-        s.update(shape_=pos(), rate=pos())
+        s.update(shape_=shp(), rate=scl())
     elif fam == "InverseGamma":
-        s.update(shape_=pos(), location=real(), scale=pos())
+        s.update(shape_=shp(), location=real(), scale=scl())
     elif fam == "Beta":
-        s.update(alpha=pos(), beta=pos())
+        s.update(alpha=shp(), beta=shp())
     elif fam == "Uniform":
         s.update(low=real(), width=pos())
     elif fam == "Lognormal":
@@ -156,10 +163,17 @@ class Reference:
         """map raw reals to a point strictly inside the support"""
         raw = np.array(raw, dtype=float)
         f = self.fam
-        if f in ("Gamma", "Lognormal", "ModifiedHalfNormal"):
+        if f == "Gamma":
+            # (points scale with shape/rate so that uncommon magnitudes stay in the bulk of the distribution)
+            return np.exp(0.3 * raw) * _fullv(self.s, "shape_") / _fullv(self.s, "rate") if self.s.get("magnitude") else np.exp(raw)
+        if f in ("Lognormal", "ModifiedHalfNormal"):
             return np.exp(raw)
         if f == "InverseGamma":
+            if self.s.get("magnitude"):
+                return _fullv(self.s, "location") + np.exp(0.3 * raw) * _fullv(self.s, "scale") / _fullv(self.s, "shape_")
             return _fullv(self.s, "location") + np.exp(raw)
+        if f in ("Normal", "Cauchy") and self.s.get("magnitude"):
+            return _fullv(self.s, "mean" if f == "Normal" else "location") + raw * _fullv(self.s, "std" if f == "Normal" else "scale")
         if f == "Beta":
             return 1 / (1 + np.exp(-raw))
         if f == "Uniform":
